@@ -193,9 +193,9 @@ def run(ctx):
     for L in range(0, Lv + 1):
         ch += [(L, lo, hi, ns, False) for lo, hi in core.ranges(4 ** L, 2048)]
     ctx.pmap(_w_values, ch)
-    Le = 6 if ctx.quick else 7
+    Le = 7 if ctx.quick else 8
     ctx.pmap(_w_edits, [(Le, (1, 2, 4), i, 16) for i in range(16)])
-    strands = list(U.all_strings(4 if ctx.quick else 5))
+    strands = list(U.all_strings(5 if ctx.quick else 6))
     ctx.pmap(_w_decode, core.chunks_of(strands, 24))
     total_states = 0
     for n in (1, 2, 3):
@@ -207,7 +207,7 @@ def run(ctx):
     longs = [(h, L) for L in ([1000, 10000] if ctx.quick else [1000, 10000, 100000]) for h in ('ACGT', 'TGCA', 'AT', 'CAGT')]
     ctx.pmap(_w_long, longs)
     ctx.bounds = {'all_strands_up_to': Lv, 'check_lengths': list(ns), 'edits_on_strands_up_to': Le,
-                  'decode_rejection_strands_up_to': 4 if ctx.quick else 5, 'automaton_check_lengths': [1, 2, 3],
+                  'decode_rejection_strands_up_to': 5 if ctx.quick else 6, 'automaton_check_lengths': [1, 2, 3],
                   'long_strands': [L for _, L in longs[::4]]}
     ctx.rule = ('value: one case = (strand, check length) compared with the VT definition; edit: one case = (strand, single '
                 'substitution or C/G/T indel, check length): the real check must change, and decode with the original check must '
